@@ -365,7 +365,10 @@ def run(chk, repo):
     chk.ob('C13.g', 'check_sha512 hashes every block of the handle', cs.where, ok,
            detail + ' - an edit behind the hashed prefix leaves the checksum unchanged, so a stale .idx is accepted and its byte offsets are used',
            key=cs.qual + '::whole-file', fn=cs.qual)
-
+    # ------------------------------------------------------------------ shared: option plumbing by name
+    from rules.shared import optname
+    chk.clauses.append('C13.h (shared R-THREAD) an option value bound to a name that is itself a CLI option carries that very option')
+    optname(chk, repo, 'C13.h', ['cli.index_gvf'], floor=0)
 
 def byte_offsets(chk, repo, rid, qual):
     """Typestate on the line variable of a pointer generator: offsets are advanced by len() of the RAW
